@@ -449,13 +449,14 @@ def run_instance(ctx, inst):
         r.note = "cbmc rc=%s status=%s errors=%s stderr=%s" % (rc, pr["status"], pr["errors"][:3], err[-600:])
         return r
     r.n_props = len(pr["props"])
+    unknown = []
     for p in pr["props"]:
         if p.get("status") in ("SUCCESS",):
             continue
         kind = classify(p)
         if p.get("status") != "FAILURE":
-            r.verdict, r.note = "inconclusive", "property %s status %s" % (p.get("property"), p.get("status"))
-            return r
+            unknown.append(p.get("property"))
+            continue
         item = {"property": p.get("property"), "description": p.get("description"), "kind": kind,
                 "location": p.get("sourceLocation"), "inputs": trace_inputs(p.get("trace"))}
         if kind == "unwind" and not inst.unwind_fail_is_violation:
@@ -467,6 +468,8 @@ def run_instance(ctx, inst):
         r.note = "unwinding bound too small: %s" % [u["property"] for u in r.unwind_failed[:5]]
     elif r.failed:
         r.verdict = "fail"
+    elif unknown:
+        r.verdict, r.note = "inconclusive", "properties with status UNKNOWN: %s" % unknown[:5]
     else:
         r.verdict = "pass"
     return r
